@@ -20,8 +20,9 @@ import time
 
 from hypothesis import strategies as st
 
-ENDS = ['NONE', 'CONTINUE', 'FAIL_AND_CONTINUE', 'SKIP', 'REPEAT', 'STOP', 'FAIL_SUBTEST', 'INVALID', 'RAISE_A',
-        'RAISE_B', 'RAISE_O', 'BLOCK']
+ENDS = ['NONE', 'CONTINUE', 'FAIL_AND_CONTINUE', 'SKIP', 'REPEAT', 'STOP', 'FAIL_SUBTEST', 'INVALID', 'INVALID_FALSE',
+        'INVALID_ZERO', 'INVALID_EMPTY', 'RAISE_A', 'RAISE_B', 'RAISE_O', 'BLOCK']
+INVALID_VALUES = {'INVALID': 42, 'INVALID_FALSE': False, 'INVALID_ZERO': 0, 'INVALID_EMPTY': ''}
 CONDS = ['ALL', 'ANY', 'NOT_ANY', 'NOT_ALL']
 NRES = 4
 
@@ -92,6 +93,8 @@ def features(prog):
           f.add('meas_fail')
       if n['m']:
         f.add('meas')
+      if n.get('cv'):
+        f.add('cond_validator')
       if n['d']:
         f.add('diag')
       if len(n['s']) > 1:
@@ -148,7 +151,8 @@ def _behaviour(draw, meas, in_subtest, timeout_phase, simple=False):
     end = _weighted(draw, [('NONE', 10), ('CONTINUE', 3), ('FAIL_AND_CONTINUE', 3), ('STOP', 2), ('RAISE_O', 2), ('SKIP', 2), ('RAISE_A', 1)])
   else:
     end = _weighted(draw, [('NONE', 22), ('CONTINUE', 8), ('FAIL_AND_CONTINUE', 6), ('SKIP', 4), ('REPEAT', 4), ('STOP', 3),
-                           ('FAIL_SUBTEST', 8 if in_subtest else 1), ('INVALID', 1), ('RAISE_A', 2), ('RAISE_B', 1), ('RAISE_O', 2)])
+                           ('FAIL_SUBTEST', 8 if in_subtest else 1), ('INVALID', 1), ('INVALID_FALSE', 1), ('INVALID_ZERO', 1),
+                           ('INVALID_EMPTY', 1), ('RAISE_A', 2), ('RAISE_B', 1), ('RAISE_O', 2)])
   sets = {}
   for name in meas:
     v = _weighted(draw, [('p', 7), ('f', 2), (None, 1)])
@@ -183,11 +187,18 @@ def _phase(draw, ids, in_subtest, strict, simple=False):
         o['rl'] = 2
   nm = 0 if simple else _weighted(draw, [(0, 5), (1, 4), (2, 1)])
   meas = ['m%d_%d' % (pid, i) for i in range(nm)]
+  cv = {}
+  for name in meas:
+    if draw(st.integers(0, 4)) == 0:
+      cv[name] = draw(st.integers(0, NRES - 1))
   nd = 0 if simple else _weighted(draw, [(0, 6), (1, 3), (2, 1)])
   diags = [_diag(draw) for _ in range(nd)]
   ns = 1 if (simple or timeout_phase) else _weighted(draw, [(1, 6), (2, 3), (3, 1)])
   script = [_behaviour(draw, meas, in_subtest, timeout_phase, simple) for _ in range(ns)]
-  return {'t': 'phase', 'id': pid, 'o': o, 'm': meas, 'd': diags, 's': script}
+  node = {'t': 'phase', 'id': pid, 'o': o, 'm': meas, 'd': diags, 's': script}
+  if cv:
+    node['cv'] = cv
+  return node
 
 
 def _cp(draw, ids, in_subtest):
@@ -266,6 +277,7 @@ LEAF_ALPHABET = [
     ('emit0', lambda pid: phase(pid, d=[{'emit': [[0, False, False]], 'af': False}])),
     ('cp_last_fs', lambda pid: {'t': 'cp', 'id': pid, 'k': 'last', 'act': 'FAIL_SUBTEST'}),
     ('cp_all_stop', lambda pid: {'t': 'cp', 'id': pid, 'k': 'all', 'act': 'STOP'}),
+    ('returns_false', lambda pid: phase(pid, 'INVALID_FALSE')),
 ]
 
 
@@ -332,6 +344,44 @@ def enumerate_programs(k, maxdepth=2, alphabet=None):
   for shape in shapes(k, maxdepth=maxdepth):
     for leaves in itertools.product(alphabet, repeat=k):
       yield instantiate(shape, leaves)
+
+
+# ------------------------------------------------------------------ small trees placed into contexts
+def _has(nodes, types):
+  return any(n['t'] in types for n, _ in walk(nodes))
+
+
+CONTEXTS = [
+    ('top', False, lambda h: h),
+    ('subtest-after-ok', False, lambda h: [{'t': 'subtest', 'id': 900, 'c': [phase(901)] + h + [phase(902)]}, phase(903)]),
+    ('subtest-after-failsub', False, lambda h: [{'t': 'subtest', 'id': 900, 'c': [phase(901, 'FAIL_SUBTEST')] + h + [phase(902)]}, phase(903)]),
+    ('teardown-of-failed-subtest-group', True,
+     lambda h: [{'t': 'subtest', 'id': 900, 'c': [{'t': 'group', 'id': 904, 's': [], 'm': [phase(901, 'FAIL_SUBTEST'), phase(905)], 'td': h + [phase(902)]},
+                                                 phase(906)]}, phase(903)]),
+    ('teardown-after-raise', True, lambda h: [{'t': 'group', 'id': 904, 's': [], 'm': [phase(901, 'RAISE_O')], 'td': h + [phase(902)]}, phase(903)]),
+    ('teardown-after-ok-with-diag', True,
+     lambda h: [{'t': 'group', 'id': 904, 's': [], 'm': [phase(901, d=[{'emit': [[0, False, False]], 'af': False}])], 'td': h + [phase(902)]}, phase(903)]),
+    ('group-main-after-setup', False, lambda h: [{'t': 'group', 'id': 904, 's': [phase(901)], 'm': h + [phase(905)], 'td': [phase(902)]}, phase(903)]),
+    ('group-setup', False, lambda h: [{'t': 'group', 'id': 904, 's': h, 'm': [phase(905)], 'td': [phase(902)]}, phase(903)]),
+    ('branch-taken', False, lambda h: [phase(901, d=[{'emit': [[1, False, False]], 'af': False}]),
+                                       {'t': 'branch', 'id': 900, 'cond': ['ALL', [1]], 'c': h + [phase(902)]}, phase(903)]),
+    ('after-fail-with-sof', False, lambda h: [phase(901, 'FAIL_AND_CONTINUE')] + h),
+]
+
+
+def enumerate_in_contexts(k, maxdepth=1, alphabet=None):
+  """Every small tree (k leaves) placed into every context. Trees with a group/subtest are not put into teardowns."""
+  for base in enumerate_programs(k, maxdepth, alphabet):
+    hole = base['nodes']
+    has_coll = _has(hole, ('group', 'subtest'))
+    for name, in_td, wrap in CONTEXTS:
+      if in_td and has_coll:
+        continue
+      import copy as _copy  # pylint: disable=g-import-not-at-top
+      prog = program(wrap(_copy.deepcopy(hole)))
+      if name == 'after-fail-with-sof':
+        prog['opts']['sof'] = 'opt'
+      yield name, prog
 
 
 # ------------------------------------------------------------------ builder
@@ -429,8 +479,8 @@ def _mk_body(node, ctx, htf):
       while not ctx.cancel.is_set():
         time.sleep(0.0005)
       return None
-    if end == 'INVALID':
-      return 42
+    if end in INVALID_VALUES:
+      return INVALID_VALUES[end]
     if end == 'RAISE_A':
       raise ExcA('boom A p%d' % pid)
     if end == 'RAISE_B':
@@ -498,7 +548,16 @@ def build_phase(node, ctx, htf, plug_map=None):
   if kw:
     p = htf.PhaseOptions(**kw)(p)
   if node['m']:
-    p = htf.measures(*[htf.Measurement(name).in_range(0, 10) for name in node['m']])(p)
+    from openhtf.util import validators as _validators  # pylint: disable=g-import-not-at-top
+    _members = [result_enum().R0, result_enum().R1, result_enum().R2, result_enum().R3]
+    ms = []
+    for name in node['m']:
+      mm = htf.Measurement(name).in_range(0, 10)
+      cv = (node.get('cv') or {}).get(name)
+      if cv is not None:   # conditional validator: the 'pass' value 5 fails it when diagnosis result R<cv> exists at phase start
+        mm = mm.validate_on({_members[cv]: _validators.in_range(0, 3)})
+      ms.append(mm)
+    p = htf.measures(*ms)(p)
   if node['d']:
     p = htf.diagnose(*[_mk_diag(d, ctx, htf, (pid, k), False) for k, d in enumerate(node['d'])])(p)
   for spec in (node.get('plugs') or []):
